@@ -375,7 +375,9 @@ func c15SigOf(err error) string {
 
 // script actions: 'O' the next OpenAt fails; 'z' the next Read fails with 0
 // bytes; 'p' the next Read delivers some bytes AND fails; 's' the next Read is
-// short (1 byte, no error); '.' the next Open/Read behaves normally.
+// short (1 byte, no error); '.' the next Open/Read behaves normally; 'Z' from
+// here on every Read fails with 0 bytes while every OpenAt succeeds (a
+// failure that does not heal); 'Q' from here on every OpenAt fails.
 type c15Opener struct {
 	data     []byte
 	script   []byte
@@ -384,11 +386,26 @@ type c15Opener struct {
 	fails    int // consecutive failures seen by the reader (reset by a successful read)
 	maxFails int
 	limit    int // > 0: never produce more than this many consecutive failures
+	persist  byte
 }
 
-func (o *c15Opener) next() byte {
+func (o *c15Opener) next(read bool) byte {
+	if len(o.opens) > 5000 {
+		select {} // a reader that never gives up: park it (the watchdog of the case reports it)
+	}
 	a := byte('.')
-	if o.pos < len(o.script) {
+	if o.persist == 0 && o.pos < len(o.script) && (o.script[o.pos] == 'Z' || o.script[o.pos] == 'Q') {
+		o.persist = o.script[o.pos]
+	}
+	if o.persist != 0 {
+		a = '.'
+		if o.persist == 'Z' && read {
+			a = 'z'
+		}
+		if o.persist == 'Q' && !read {
+			a = 'O'
+		}
+	} else if o.pos < len(o.script) {
 		a = o.script[o.pos]
 		o.pos++
 	}
@@ -413,7 +430,7 @@ type c15ScriptReader struct {
 
 func (o *c15Opener) OpenAt(ctx context.Context, offset int64) (io.ReadCloser, error) {
 	o.opens = append(o.opens, offset)
-	if a := o.next(); a == 'O' {
+	if a := o.next(false); a == 'O' {
 		return nil, fmt.Errorf("scripted open failure")
 	}
 	if offset < 0 || offset > int64(len(o.data)) {
@@ -429,7 +446,7 @@ func (r *c15ScriptReader) Read(p []byte) (int, error) {
 		return 0, nil
 	}
 	left := r.o.data[r.off:]
-	a := r.o.next()
+	a := r.o.next(true)
 	switch a {
 	case 'z':
 		return 0, fmt.Errorf("scripted read failure")
@@ -465,6 +482,24 @@ type c15RetryCase struct {
 }
 
 func c15RunRetry(c c15RetryCase) (err error, retried bool) {
+	type res struct {
+		err     error
+		retried bool
+	}
+	done := make(chan res, 1)
+	go func() {
+		e, r := c15RunRetry1(c)
+		done <- res{e, r}
+	}()
+	select {
+	case r := <-done:
+		return r.err, r.retried
+	case <-time.After(20 * time.Second):
+		return fmt.Errorf("the reader neither delivered the stream nor failed: it is still reopening after more than 5000 attempts (microsecond back-off), i.e. its retry budget is never exhausted"), true
+	}
+}
+
+func c15RunRetry1(c c15RetryCase) (err error, retried bool) {
 	defer func() {
 		if r := recover(); r != nil {
 			_, stack := vt.PanicSig(r)
@@ -509,7 +544,7 @@ func TestVerifC15RetryReader(t *testing.T) {
 	defer VerifSetRetryPolicy(old)
 	maxLen, maxScript := vt.Pick(4, 6), vt.Pick(5, 6)
 	rec := vt.New("C15", "retry-reader",
-		fmt.Sprintf("complete enumeration: streams of length 0..%d x buffer sizes 1..3 x all failure scripts of length <= %d over {open fails, read fails with 0 bytes, read delivers bytes and fails, short read, normal} applied to retryReader over a scripted opener; plus rapid for longer streams/scripts through openerAtReader + row decoding; oracle: the delivered bytes are at every moment a prefix of the committed stream and equal it at EOF (nothing skipped, nothing repeated), an error only after more than 5 consecutive failures; non-trivial = script contains a failure; distinct by (stream length, buffer, script)", maxLen, maxScript))
+		fmt.Sprintf("complete enumeration: streams of length 0..%d x buffer sizes 1..3 x all failure scripts of length <= %d over {open fails, read fails with 0 bytes, read delivers bytes and fails, short read, normal}, optionally ending in a failure that does not heal (every further read fails while opens succeed / every further open fails), applied to retryReader over a scripted opener; plus rapid for longer streams/scripts through openerAtReader + row decoding; oracle: the delivered bytes are at every moment a prefix of the committed stream and equal it at EOF (nothing skipped, nothing repeated), an error only after more than 5 consecutive failures, and a failure that does not heal must end in an error (the reader may not retry forever); non-trivial = script contains a failure; distinct by (stream length, buffer, script)", maxLen, maxScript))
 	docs, only := vt.Replays(c15Retry)
 	for _, d := range docs {
 		var c c15RetryCase
@@ -525,14 +560,14 @@ func TestVerifC15RetryReader(t *testing.T) {
 	if only || t.Failed() {
 		return
 	}
-	alphabet := "Ozps."
+	alphabet := "Ozps.ZQ"
 	idx := 0
 	reported := false
 	var scripts []string
 	var gen func(p string)
 	gen = func(p string) {
 		scripts = append(scripts, p)
-		if len(p) == maxScript {
+		if len(p) == maxScript || strings.HasSuffix(p, "Z") || strings.HasSuffix(p, "Q") {
 			return
 		}
 		for _, a := range alphabet {
